@@ -212,8 +212,128 @@ def worker(args):
     return viol, dict(stats), {"identities": ids, "features": feats, "form": form, "xep0115": exp}
 
 
+# ------------------------------------------------------------------------------------------------ advertised vs answered (wire engine)
+
+WIRE_MANAGERS = ["carbons2", "mam", "pubsub", "blocking", "upload", "extdisco", "mix", "receipts", "time", "muc", "bookmarks", "attention", "jmi", "callinvite", "rpc", "registration", "archive",
+                 "location", "tune", "moved", "uploadrequest", "transfer"]
+
+
+def parse_info(xml):
+    """identities / features / form of a disco#info result -> the structures xep0115() takes"""
+    from xml.dom import minidom
+    d = minidom.parseString(xml.encode("utf8")).documentElement
+    q = [c for c in d.childNodes if c.nodeType == 1 and c.localName == "query"]
+    if not q:
+        return None
+    q = q[0]
+    ids, feats, form = [], [], None
+    for c in q.childNodes:
+        if c.nodeType != 1:
+            continue
+        if c.localName == "identity":
+            ids.append({"category": c.getAttribute("category"), "type": c.getAttribute("type"), "lang": c.getAttribute("xml:lang"), "name": c.getAttribute("name")})
+        elif c.localName == "feature":
+            feats.append(c.getAttribute("var"))
+        elif c.localName == "x":
+            fields = []
+            for f in c.childNodes:
+                if f.nodeType == 1 and f.localName == "field":
+                    fields.append({"var": f.getAttribute("var"), "values": ["".join(t.data for t in v.childNodes if t.nodeType == 3) for v in f.childNodes if v.nodeType == 1 and v.localName == "value"]})
+            if any(f["var"] == "FORM_TYPE" for f in fields):
+                form = {"fields": fields}
+    return ids, feats, form, q.getAttribute("node")
+
+
+def wire_worker(args):
+    import wire
+    from xml.dom import minidom
+    wid, n = args
+    r = vf.rng("c20-wire", wid)
+    binary = vf.build_harness("wire")
+    cases, metas = [], []
+    for i in range(n):
+        managers = [m for m in WIRE_MANAGERS if r.random() < 0.4]
+        opts = {}
+        if r.random() < 0.7:
+            opts["clientName"] = tok(r, r.choice([1, 6, 20]))
+        if r.random() < 0.4:
+            opts["clientType"] = r.choice(["pc", "phone", "bot", "web", tok(r, 4, [0])])
+        if r.random() < 0.3:
+            opts["clientCategory"] = r.choice(["client", "automation", tok(r, 5, [0])])
+        if r.random() < 0.4:
+            opts["capsNode"] = r.choice(["https://example.org/client", "urn:example:%s" % tok(r, 4, [0]), tok(r, 8)])
+        if r.random() < 0.5:
+            fields = [{"var": "FORM_TYPE", "values": ["urn:xmpp:dataforms:softwareinfo"]}]
+            for _ in range(r.randrange(0, 4)):
+                fields.append({"var": tok(r, 5, [0, 1]), "values": [tok(r, r.choice([1, 4, 9])) for _ in range(r.choice([1, 1, 2, 3]))]})
+            opts["infoForm"] = fields
+        steps = [wire.client(managers=managers, **opts)] + wire.login_sasl(sm=False) + [dict(op="wait_signal", name="connected"), dict(op="fence")]
+        steps.append(wire.S("<iq type='get' id='di-plain' from='bob@example.org/x' to='%s'><query xmlns='http://jabber.org/protocol/disco#info'/></iq>" % wire.JID))
+        steps.append(wire.S("<iq type='get' id='di-node' from='bob@example.org/x' to='%s'><query xmlns='http://jabber.org/protocol/disco#info' node='$CAPS'/></iq>" % wire.JID))
+        steps.append(dict(op="fence"))
+        cases.append(dict(steps=steps, timeout=4000))
+        metas.append((managers, opts))
+    outs, crashes = wire.run_cases(binary, cases)
+    viol, stats = [], collections.Counter()
+    for rq, info in crashes:
+        viol.append(("wire crash " + vf.crash_sig(info), "sanitizer report / abnormal exit while the client answered disco#info", {"stderr": info["stderr"][-3000:]}))
+    for out, (managers, opts) in zip(outs, metas):
+        if not out:
+            continue
+        j = out["journal"]
+        caps = None
+        for e in wire.srv_rx(j):
+            if e["tag"] == "presence" and "protocol/caps" in e.get("xml", ""):
+                d = minidom.parseString(e["xml"].encode("utf8")).documentElement
+                for c in d.childNodes:
+                    if c.nodeType == 1 and c.localName == "c":
+                        caps = {"node": c.getAttribute("node"), "ver": c.getAttribute("ver"), "hash": c.getAttribute("hash")}
+        if caps is None:
+            stats["no_caps_in_presence"] += 1
+            continue
+        stats["sessions"] += 1
+        replies = {e["id"]: e for e in wire.srv_rx(j) if e["tag"] == "iq" and e["id"] in ("di-plain", "di-node")}
+        w = {"managers": managers, "client_options": opts, "advertised": caps}
+        for rid in ("di-plain", "di-node"):
+            e = replies.get(rid)
+            if e is None or e["type"] != "result":
+                viol.append(("disco-info-not-answered %s" % rid, "the client did not answer a disco#info query%s with a result" % (" for the advertised node#ver" if rid == "di-node" else ""), dict(w, reply=e and e.get("xml", "")[:1500])))
+                continue
+            ids, feats, form, node = parse_info(e["xml"])
+            h = xep0115(ids, feats, form)
+            stats["replies_hashed"] += 1
+            if caps["hash"] != "sha-1":
+                viol.append(("advertised-hash-algorithm %s" % caps["hash"], "presence advertises a caps hash algorithm other than sha-1", w))
+            elif h != caps["ver"]:
+                viol.append(("advertised-ver-differs-from-answer %s%s" % (rid, " form" if form else ""), "the ver advertised in presence is not the XEP-0115 hash of the disco#info answer", dict(w, answer=e["xml"][:4000], hash_of_answer=h)))
+            else:
+                stats["ver_matches"] += 1
+                if form:
+                    stats["ver_matches_with_form"] += 1
+            if rid == "di-node" and node != "%s#%s" % (caps["node"], caps["ver"]):
+                viol.append(("answer-node-differs", "the answer to a query for node#ver names another node", dict(w, answer=e["xml"][:2000])))
+        stats["features_seen"] = max(stats["features_seen"], len(feats))
+    return viol, dict(stats)
+
+
+def wire_half(V, tier):
+    W = vf.NPROC
+    n = (200 if tier == "quick" else 5000) // W + 1
+    with ProcessPoolExecutor(max_workers=W) as ex:
+        res = list(ex.map(wire_worker, [(w, n) for w in range(W)]))
+    stats = collections.Counter()
+    for viol, st in res:
+        for sig, what, w in viol:
+            V.violation(sig, what, w)
+        fs = st.pop("features_seen", 0)
+        stats.update(st)
+        stats["max_features_in_an_answer"] = max(stats["max_features_in_an_answer"], fs)
+    return dict(stats)
+
+
 def main(tier, replay=None):
     V = vf.Verdict("C20", tier)
+    wire_stats = wire_half(V, tier)
     vf.build_harness("caps")
     total = 20000 if tier == "quick" else 1000000
     W = vf.NPROC
@@ -229,6 +349,8 @@ def main(tier, replay=None):
            "rule": "random info sets (0-8 identities incl. ones differing only in name/lang/type, 0-14 features with repeats, optional FORM_TYPE form with single- and multi-valued fields; alphabets ASCII, Latin-1, CJK, "
                    "BMP >= U+E000, astral) each hashed in 5 permutations (3 through setters, 2 parsed from XML) and once with a single-element perturbation; compared with an independent Python XEP-0115 5.1 implementation "
                    "(i;octet order); distinct_nontrivial = info sets confirmed order-blind + perturbations confirmed to change the hash",
-           "observed": dict(stats), "samples": [sample]}
-    floors = {"hashes": stats["hashes"] > 1000, "perturbations": stats["perturbations"] > 100, "astral_cases": stats["class:astral+highBMP"] > 0}
-    V.finish(cov, "exploration", ["Python hashlib and our reading of XEP-0115 5.1 (octet collation, duplicate features collapse)", "the presence-vs-disco#info half is decided by the wire part of this check when present"], floors)
+           "observed": dict(stats), "samples": [sample],
+           "advertised_vs_answered": dict(wire_stats, rule="real client sessions with a random subset of 22 optional managers, random client name/type/category/caps node and optional software-info form: the <c ver/> of the initial presence "
+                                                        "must equal the independent XEP-0115 hash of the client's answers to disco#info (without node and for node#ver), the answer must name the queried node")}
+    floors = {"hashes": stats["hashes"] > 1000, "perturbations": stats["perturbations"] > 100, "astral_cases": stats["class:astral+highBMP"] > 0, "wire_ver_matches": wire_stats.get("ver_matches", 0) >= 100, "wire_with_form": wire_stats.get("ver_matches_with_form", 0) > 0}
+    V.finish(cov, "exploration", ["Python hashlib and our reading of XEP-0115 5.1 (octet collation, duplicate features collapse)", "the presence-vs-disco#info half runs real client sessions against the scripted server on loopback"], floors)
